@@ -1010,6 +1010,15 @@ impl<A: Flavour> Case<A> {
       let a = a.min(GUARANTEED_ALIGN.load(Ordering::Relaxed)).max(1);
       let am = if cap == 0 { 0 } else { slot.ptr() as usize as u64 % a };
       s.push_str(&format!(" am={}", am));
+      // implementation-side oracle `pq`: the pointer of a typed handle whose value lives in the arena is the arena's
+      // base plus the offset the handle reports (printed only when it is not)
+      if cap > 0 && matches!(kind, HKind::TRef | HKind::TOwn) {
+        let base = self.cur().raw_ptr() as usize;
+        let p = slot.ptr() as usize;
+        if p != base + off {
+          s.push_str(&format!(" pq={}", p.wrapping_sub(base) as isize));
+        }
+      }
     }
     if z {
       // The DropCounter handles keep their value in a slot inside the handle, not in the arena:
@@ -1577,8 +1586,26 @@ impl<A: Flavour> Case<A> {
         }
       }
       "set_len" => {
-        b.set_len_(parse(t[2])?);
-        "r=ok".to_string()
+        // implementation-side oracle `sz`: the bytes `set_len` exposes or hides read as zeroes afterwards (printed only
+        // when they do not)
+        let (old, new): (usize, usize) = (b.len(), parse(t[2])?);
+        // (an empty buffer derefs to an empty slice whose pointer means nothing: take the start while there are bytes)
+        let p0 = (old > 0).then(|| b.as_ptr());
+        b.set_len_(new);
+        let p1 = (new > 0).then(|| b.as_ptr());
+        let (lo, hi) = (old.min(new), old.max(new));
+        let clean = match p0.or(p1) {
+          Some(p) => {
+            let all: &[u8] = unsafe { std::slice::from_raw_parts(p, hi) };
+            all[lo..hi].iter().all(|x| *x == 0)
+          }
+          None => true,
+        };
+        if clean {
+          "r=ok".to_string()
+        } else {
+          "r=ok sz=0".to_string()
+        }
       }
       "align_to" | "put_aligned" | "putT" => {
         let (al, sz): (u64, u64) = (parse(t[2])?, parse(t[3])?);
@@ -1791,23 +1818,31 @@ struct Reopen {
   trunc: bool,
   /// optional token `pb=1`: open through the `*_with_path_builder` entry point of the same mode
   pb: bool,
+  /// optional token `nw=1` (mode `copy` only): the Options value has no `with_write(true)` — a private copy-on-write
+  /// mapping needs no write access to the file and is a writable arena all the same
+  nw: bool,
 }
 
 impl Reopen {
   /// `same_cap`: what `cap=same` stands for
   fn parse(t: &[&str], same_cap: u32) -> Option<Reopen> {
-    if t.len() < 9 || t.len() > 11 || t[0] != "reopen" {
+    if t.len() < 9 || t.len() > 12 || t[0] != "reopen" {
       return None;
     }
-    let (mut trunc, mut pb) = (false, false);
+    let (mut trunc, mut pb, mut nw) = (false, false, false);
     for x in &t[9..] {
       match *x {
         "trunc=0" => trunc = false,
         "trunc=1" => trunc = true,
         "pb=0" => pb = false,
         "pb=1" => pb = true,
+        "nw=0" => nw = false,
+        "nw=1" => nw = true,
         _ => return None,
       }
+    }
+    if nw && t[1] != "copy" {
+      return None;
     }
     if trunc && !matches!(t[1], "ro" | "copy_ro") {
       return None;
@@ -1844,6 +1879,7 @@ impl Reopen {
       minseg: val(8, "minseg")?.parse().ok()?,
       trunc,
       pb,
+      nw,
     })
   }
 }
@@ -1930,7 +1966,7 @@ impl<A: Flavour> Case<A> {
         .with_populate(cfg.mm & 2 != 0)
         .with_stack(cfg.mm & 4 != 0)
         .with_read(true)
-        .with_write(true);
+        .with_write(!r.nw);
       if r.create & 1 != 0 {
         o = o.with_create(true);
       }
@@ -2067,6 +2103,7 @@ impl Session {
           minseg: self.cfg.minseg,
           trunc: false,
           pb: false,
+          nw: false,
         };
         let built: Result<Box<dyn CaseInner>, String> = if r.sync {
           Case::<sync::Arena>::reopen(&self.cfg, &r, &crash).map(|c| Box::new(c) as Box<dyn CaseInner>)
